@@ -44,6 +44,11 @@ TABLE = {
         (1, "configured base, as for TurtleParser"),
 }
 TABLE.update({
+    # only compiled with the `file_url` feature (seen by the thorough tier)
+    "<loader::file_url_loader::FileUrlLoader as json_ld::Loader<sophia_iri::Iri<std::sync::Arc<str>>, locspan::Location<sophia_iri::Iri<std::sync::Arc<str>>>>>::load_with::{closure}#unwrap:unwrap:call:rdf_types::IriVocabulary::iri":
+        (1, "as for ClosureLoader: the vocabulary re-resolves the very ArcIri the json-ld processor handed to the loader"),
+    "<loader::file_url_loader::FileUrlLoader as json_ld::Loader<sophia_iri::Iri<std::sync::Arc<str>>, locspan::Location<sophia_iri::Iri<std::sync::Arc<str>>>>>::load_with::{closure}#unwrap:unwrap:call:core::str::<impl str>::parse":
+        (1, "parses the constant \"application/ld+json\""),
     "<loader::closure_loader::ClosureLoader<F> as json_ld::Loader<sophia_iri::Iri<std::sync::Arc<str>>, locspan::Location<sophia_iri::Iri<std::sync::Arc<str>>>>>::load_with::{closure#0}#unwrap:unwrap:call:rdf_types::IriVocabulary::iri":
         (1, "the vocabulary re-resolves the very ArcIri the json-ld processor handed to the loader (ArcVoc::iri re-parses with iref a string that "
             "came from iref)"),
